@@ -309,6 +309,44 @@ theorem no_dangling_partial (m : Mode) (units : List (UnitHdr × List Entry)) (d
     simp only [hl1.1, if_true]
     exact List.mem_flatMap.2 ⟨o, ho, ht⟩
 
+/-- **`conversion_monotone`** — reference resolution is monotone in `entry_ids`: an attribute that
+the filtered conversion (fewer ids) converts is converted by the unfiltered one as well, so
+filtering can only turn a convertible attribute into a `ConvertError`, never the reverse; together
+with `no_dangling_partial` the two conversions agree on every recorded attribute of a kept entry. -/
+theorem conversion_monotone (ids ids' : List Off) (hsub : ∀ x, x ∈ ids → x ∈ ids') (u : UnitHdr)
+    (a : AttrRef) (h : convAttr ids u a = none) : convAttr ids' u a = none := by
+  have hu : ∀ val, convUnitRef ids u val = none → convUnitRef ids' u val = none := by
+    intro val h; rw [convUnitRef_none] at h ⊢; exact ⟨h.1, hsub _ h.2⟩
+  have hi : ∀ val, convInfoRef ids val = none → convInfoRef ids' val = none := by
+    intro val h; rw [convInfoRef_none] at h ⊢; exact hsub _ h
+  have hop : ∀ o, convOp ids u o = none → convOp ids' u o = none := by
+    intro o h
+    cases o with
+    | unitRef v => exact hu v h
+    | infoRef v => exact hi v h
+    | ignoredInfoRef v => exact hi v h
+    | nestedUnitRef v => exact hu v h
+    | nestedInfoRef v => exact hi v h
+  have hops : ∀ ops : List OpRef, firstErr (ops.map (convOp ids u)) = none →
+      firstErr (ops.map (convOp ids' u)) = none := by
+    intro ops h
+    rw [firstErr_none] at h ⊢
+    intro x hx
+    obtain ⟨o, ho, hx⟩ := List.mem_map.1 hx
+    subst hx
+    exact hop o (h _ (List.mem_map.2 ⟨o, ho, rfl⟩))
+  cases a with
+  | unitRef v => exact hu v h
+  | infoRef v => exact hi v h
+  | expr ops => exact hops ops h
+  | loclist locs =>
+    simp only [convAttr] at h ⊢
+    rw [firstErr_none] at h ⊢
+    intro x hx
+    obtain ⟨l, hl, hx⟩ := List.mem_map.1 hx
+    subst hx
+    exact hops l.2 (h _ (List.mem_map.2 ⟨l, hl, rfl⟩))
+
 /-! ## skipping unreserved entries keeps the parent links -/
 
 /-- **`convert_parent_links`** — `ConvertUnit::read_entry` (its own depth stack, on which only
